@@ -75,6 +75,9 @@ var whitelist = []item{
 		Skip: []string{"evaluatedNodes++", "gamePhaseFactor :=", "verifLazyCut(", "pos.flags =", "if len(debug) > 0"}},
 	{Func: "Position.MakeMove", Lean: "MakeMove_corners", StartAt: "if mov.from.getFile() == A &&", StopBefore: "if pos.board[mov.to] != NullPiece",
 		Result: "flags", State: map[string]string{"pos.flags": "flags:Int"}, Opaque: map[string]string{"mov.from": "from_:Int", "mov.to": "to_:Int"}},
+	{Func: "Position.areCastlingFlagsConsistent", Lean: "areCastlingFlagsConsistent", Drop: []string{"pos"},
+		Opaque: map[string]string{"pos.flags": "flags:Int", "pos.board[E1]": "e1:Int", "pos.board[H1]": "h1:Int", "pos.board[A1]": "a1:Int",
+			"pos.board[E8]": "e8:Int", "pos.board[H8]": "h8:Int", "pos.board[A8]": "a8:Int"}},
 	{Func: "terminalNodeScore", Lean: "terminalNodeScore_decision", Drop: []string{"position"},
 		Opaque: map[string]string{"position.isCurrentKingUnderCheck()": "inCheck:Bool"}, Skip: []string{"evaluatedNodes++"}},
 	{Func: "appendCapture", Lean: "appendCapture_ranking", ExprVar: "captureRanking"},
@@ -723,6 +726,9 @@ func (t *tr) translate(it *item) (def string, err string) {
 		if fd.Recv != nil && it.StartAt == "" {
 			for _, f := range fd.Recv.List {
 				for _, n := range f.Names {
+					if drop[n.Name] {
+						continue
+					}
 					params = append(params, fmt.Sprintf("(%s : %s)", mangle(n.Name), leanType(t.info.TypeOf(n))))
 					declared[n.Name] = true
 				}
